@@ -197,7 +197,9 @@ func resolveOverloadedFun(env *Env, call *ast.CallExpr, fnName string, args []*T
 	for i, fnTy := range fnTys {
 		util.Assert(fnTy.Kind == KFun, "non callable of %s in %s", fnName, call)
 		monoFnTy := inferFun(fnTy, args)
-		if monoFnTy == nil {
+		if monoFnTy == nil || !sameTypes(monoFnTy.Param, args) {
+			// 参数中具体的容器类型会吸收空字面量的 ⊥ (list[num] ~ list[⊥]),
+			// 这样实例化出来的参数类型与实参类型并不相等, 继续尝试后面的重载
 			continue
 		}
 		call.Resolved = polyFnKey // attach ast, 标记 callee 在环境中的 key
@@ -284,6 +286,18 @@ func slotFree(ty *Type) bool {
 		util.Unreachable()
 		return false
 	}
+}
+
+func sameTypes(xs, ys []*Type) bool {
+	if len(xs) != len(ys) {
+		return false
+	}
+	for i := range xs {
+		if !Equals(xs[i], ys[i]) {
+			return false
+		}
+	}
+	return true
 }
 
 func arityAssert(expect, actual int, f ast.Expr) {
